@@ -23,6 +23,11 @@ class Unsupported(Exception):
     pass
 
 
+# float("inf") is modelled as a real constant larger than any quantity the obligations mention
+INF = z3.Real("INF")
+INF_AXIOM = INF >= z3.RealVal(10) ** 30
+
+
 def fn_ast(fn):
     src = textwrap.dedent(inspect.getsource(fn))
     tree = ast.parse(src)
@@ -114,6 +119,9 @@ class Interp:
             return z3.If(self.truth(self.expr(n.test, env)), self.expr(n.body, env), self.expr(n.orelse, env))
         if isinstance(n, ast.Call):
             name = _key(n.func)
+            if name == "float" and len(n.args) == 1 and isinstance(n.args[0], ast.Constant) \
+                    and str(n.args[0].value).lower() in ("inf", "+inf", "infinity"):
+                return INF
             args = [self.expr(a, env) for a in n.args]
             if n.keywords:
                 raise Unsupported("keyword arguments in call to %s" % name)
